@@ -509,4 +509,89 @@ def scenario_scope(res, pid, rng, tier):
             _cmp(fails, "an IPv6 entry in the preserved lists changes how other entries or other addresses are treated", ctx, ls, got,
                  spec_lines(salt, ls, **v))
     res.nt(("scn", "v6-entries"))
+
+    # ---- Q1. a preserved block that starts at the same address as a shorter preserved prefix: the addresses which the
+    #          implementation itself (cold) names as pre-images of members of the block, through a file run
+    for nets_ in (["10.0.0.0/24"], ["172.16.0.0/16", "192.168.0.0/24"], ["10.0.0.0/8", "10.0.0.0/16", "10.0.0.0/30"]):
+        for b4 in (0, 8):
+            ys = []
+            for n in _v4nets(nets_):
+                ys += [int(n.network_address) + k for k in (0, 5, 77 % n.num_addresses, n.num_addresses - 1)]
+            xs = []
+            for y in ys:
+                try:
+                    xs.append(int(IpAnonymizer(salt, None, list(nets_), preserve_suffix=b4).deanonymize(y)))
+                except Exception:  # noqa
+                    pass
+            ls = ["ip host %s" % v4(a) for a in xs + ys if 0 <= a < 2 ** 32]
+            ctx = {"salt": salt, "preserve_addresses": nets_, "host_bits": b4}
+            got = _try(fails, "block with the base address of a shorter prefix", ctx, lambda: _run(_fa(salt, nets=nets_, b4=b4), ls))
+            res.evaluations += len(ls)
+            if got is not None:
+                _cmp(fails, "an address is mapped onto a member of a preserved block that starts at the base address of a shorter preserved prefix",
+                     ctx, ls, got, spec_lines(salt, ls, nets=nets_, b4=b4))
+    res.nt(("scn", "same-base"))
+
+    # ---- Q2. the map is written out between requests (library use): what comes afterwards is still the function of salt and options
+    hosts = [(rng.choice([100, 23, 150]) << 24) + (rng.randint(1, 200) << 16) + (rng.randint(1, 200) << 8) + 2 * rng.randint(2, 120) for _ in range(6)]
+    nets_ = ["%s/32" % v4(h) for h in hosts]
+    for b4 in (0, 8):
+        ctx = {"salt": salt, "preserve_addresses": nets_, "host_bits": b4, "history": "some lines, dump_to_file, then the lines shown"}
+
+        def dumped_between():
+            ob = _fa(salt, nets=nets_, b4=b4)
+            _run(ob, ["ntp server %s" % v4(rnd()), "ntp server %s" % v4(hosts[0])])
+            ob.anonymizer4.dump_to_file(io.StringIO())
+            ob.anonymizer6.dump_to_file(io.StringIO())
+            return _run(ob, ls_q2)
+        ls_q2 = ["ip host %s" % v4(h ^ 1) for h in hosts] + ["ip host %s" % v4(h) for h in hosts] + ["ip host %s" % v4(rnd())]
+        got = _try(fails, "dump between requests", ctx, dumped_between)
+        res.evaluations += len(ls_q2)
+        if got is not None:
+            _cmp(fails, "after dump_to_file the anonymizer no longer computes the map of its salt and options", ctx, ls_q2, got,
+                 spec_lines(salt, ls_q2, nets=nets_, b4=b4))
+    res.nt(("scn", "dump-between"))
+
+    # ---- Q3. the same anonymizer object used from another thread, copied, or pickled and restored: still the map of its salt and options
+    import copy as _copy
+    import pickle as _pickle
+    import threading as _threading
+    cq = ipgen.Cfg(4, salt, 8, None, [net], "md5")
+    aq = [n0 + 5, n0 + 300, n0 + 65000, n0 - 3, n0 ^ (1 << 17), rnd(), rnd(), (10 << 24) + 0x10203, (192 << 24) + (168 << 16) + 77]
+    aq = [a for a in aq if 0 <= a < 2 ** 32]
+    want = spec_images(cq, aq)
+    if want:
+        def mk():
+            return IpAnonymizer(salt, None, [net], preserve_suffix=8)
+
+        def via_thread():
+            ob, box = mk(), {}
+
+            def work():
+                try:
+                    box["r"] = [int(ob.anonymize(a)) for a in aq]
+                except Exception as e:  # noqa
+                    box["e"] = e
+            t = _threading.Thread(target=work)
+            t.start()
+            t.join()
+            if "e" in box:
+                raise box["e"]
+            return box["r"]
+        routes = [("used from a second thread", via_thread)]
+        for nm, clone in (("copy.deepcopy", _copy.deepcopy), ("pickle round trip", lambda o: _pickle.loads(_pickle.dumps(o)))):
+            try:
+                cl = clone(mk())
+            except Exception:  # noqa
+                continue                       # the object cannot be copied this way at all: nothing to compare
+            routes.append((nm, lambda cl=cl: [int(cl.anonymize(a)) for a in aq]))
+        for nm, fn in routes:
+            ctx = {"salt": salt, "preserve_addresses": [net], "object": nm}
+            got = _try(fails, "anonymizer object %s" % nm, ctx, fn)
+            res.evaluations += len(aq)
+            if got is not None and list(got) != list(want):
+                i = next(i for i in range(len(aq)) if got[i] != want[i])
+                fails.append(dict(ctx, kind="an IpAnonymizer %s does not compute the map of its salt and options" % nm, address=v4(aq[i]),
+                                  image=v4(got[i]), expected=v4(want[i])))
+    res.nt(("scn", "transport"))
     return [], fails
